@@ -351,13 +351,47 @@ fn with_prefix_msgs(buflen: usize, limit: usize, mode: &str, fill: u8, ops: &[&s
 fn audit_line(head: &str, result: &str) -> Option<String> {
     let h: Vec<&str> = head.split(' ').collect();
     let r: Vec<&str> = result.split(' ').collect();
-    if h.len() != 5 || r.len() != 4 || r[0] != "ok" || r[2] == "-" {
+    // sessions that panicked are audited too (the specification says they must not)
+    if h.len() != 5 || r.len() != 4 || r[0] != "ok" {
         return None;
     }
     let (bl, li, fi) = (h[0].parse().ok()?, h[1].parse().ok()?, h[2 + 1].parse().ok()?);
     let ops: Vec<&str> = h[4].split(';').collect();
     let msgs = with_prefix_msgs(bl, li, h[2], fi, &ops, r[2]);
-    Some(format!("waudit {} {} {} {}", head, r[1], msgs, r[3]))
+    Some(format!("{} {} {} {} {}", AUDIT_OP.with(|c| c.get()), head, r[1], msgs, r[3]))
+}
+
+thread_local! {
+    /// `waudit` for group `writer` (C12: everything), `paudit` for group `writerptr` (C13: the
+    /// pointer audit only)
+    static AUDIT_OP: std::cell::Cell<&'static str> = std::cell::Cell::new("waudit");
+}
+
+/// group `writerptr`: the same sessions, audited for C13 only
+pub fn gen_ptr(rng: &mut Rng, thorough: bool, em: &mut Emitter) {
+    AUDIT_OP.with(|c| c.set("paudit"));
+    gen(rng, thorough, em);
+}
+
+/// contract-violating scenario: a hint pointer recorded by a call that was rolled back is used
+/// later, when the cursor is exactly at (or just around) the stale position
+fn gen_stale_pointer_session(rng: &mut Rng, em: &mut Emitter) {
+    let mut lab = |n: usize| -> Vec<u8> {
+        let mut v = vec![n as u8];
+        for _ in 0..n { v.push(b'a' + rng.below(26) as u8); }
+        v.push(0);
+        v
+    };
+    let (o, n1, n2, o2, x) = (lab(5), lab(6), lab(40), lab(5), lab(5));
+    let delta = *rng.pick(&[0usize, 0, 0, 1, 2]);          // extra RDATA octets in the filler record
+    let filler: String = std::iter::repeat("00").take(delta).collect();
+    let mode = *rng.pick(&["s", "s", "c"]);
+    let ops = format!(
+        "q:00:1:1;nss:n:{}:2:1:60:{},{}:0;ns:n:{}:65280:1:60:{}:-;ns:x0.0:{}:1:1:60:01020304:-;ns:x0.0:{}:2:1:60:{}:-;fin",
+        hex(&o), hex(&n1), hex(&n2), hex(&o2), if delta == 0 { "-".to_string() } else { filler }, hex(&x), hex(&x), hex(&n1)
+    );
+    let r = exec(200, 60, mode, 0, &ops);
+    em.emit(&format!("w 200 60 {} 0 {}", mode, ops), &r);
 }
 
 pub fn run(op: &str, a: &[&str]) -> Option<String> {
@@ -368,7 +402,7 @@ pub fn run(op: &str, a: &[&str]) -> Option<String> {
             };
             Some(exec(bl, li, mode, fi, ops))
         }
-        ("waudit", [buflen, limit, mode, fill, ops, st, msg, mac]) => {
+        ("waudit" | "paudit", [buflen, limit, mode, fill, ops, st, msg, mac]) => {
             let (Ok(bl), Ok(li), Ok(fi)) = (buflen.parse::<usize>(), limit.parse::<usize>(), fill.parse::<u8>()) else {
                 return Some("bad-op".into());
             };
@@ -980,6 +1014,10 @@ pub fn gen(rng: &mut Rng, thorough: bool, em: &mut Emitter) {
         let fill = *rng.pick(&[0u8, 0, 0xaa, 0xc0, 0xff, 0x3f, 1]);
         let sh = Shape { buflen, limit, mode, fill, violate, n_ops };
         gen_session(rng, &sh, em, &mut stats);
+    }
+    // 2b. stale hint pointers (contract violation; compared with the model only)
+    for _ in 0..(if thorough { 400 } else { 40 }) {
+        gen_stale_pointer_session(rng, em);
     }
     // 3. sessions that cross POINTER_MAX (0x3fff): a big TXT record first, names afterwards
     let n_big = if thorough { 300 } else { 8 };
